@@ -64,6 +64,10 @@ CHECKS = {
             "On TLC-simulated instances of all classes and statement-bearing OFX trees, every aggregate is taken as receiver: getattr/hasattr/getattr-with-default for every name declared below it, names declared nowhere below and dunder names; all 15 documented shortcuts; copy, deepcopy and pickle. Aggregates returned are reported by the path of the very object (identity); TLC recomputes Lookup / the shortcut path on the abstract instance and compares.",
             "Trusted: TLC, the exporter, the reading of the documented shortcuts as paths. Unjudged: names defined by several descendants, names of repeated/unsupported children, names shadowed by list methods or properties, ORG/FID when FI is absent, trnuid/cltcookie stapled onto statement responses.",
             "DESIGN.md section 6 C16"),
+    "C06": ("TLA+ OFXCompose clauses over the instance TLC reads from the dry-run bytes (OFXFile composition) + TLC model check of the clause set against a reference composition and its single deviations",
+            "TLC checks on OFXCompose that a reference composition satisfies every clause for all request sequences up to the bound and that each single deviation (wrapper dropped/added, same-kind wrappers swapped, TRNUID repeated, wrong message set, CLIENTUID below 1.0.3, wrong password) falsifies one; seeded client configurations (all 11 versions, formats, identity subsets, credentials and ids with markup characters) x request mixes up to 12 plus account-info/profile/tax calls are composed with dryrun=True, and TLC reads the returned bytes itself and evaluates the clauses (header version, one sign-on with exactly the supplied identity, one wrapper per request under the right message set, per-kind order and contents, distinct TRNUIDs, 2xx refuses unclosed).",
+            "Trusted: TLC, the three file layers, the clause reading of the property. The relative order of different kinds inside a message set is left free; INVSTMTRQ may omit INCTRAN when transactions are not wanted.",
+            "DESIGN.md section 6 C06"),
 }
 
 PENDING = {}
